@@ -95,7 +95,7 @@ def validate(ctx, tag, grams, seed, per_rule, events=True, ast="opt", rows=None,
         with open(tp, "w") as f:
             for r in work:
                 f.write(json.dumps({k: v for k, v in r.items() if k != "_job"}) + "\n")
-        _, st = peg.run_tlc(path, tag + "_tr", cfg="PegTrace.cfg", module="PegTrace.tla", ast=ast, workers=1,
+        _, st = peg.run_tlc(path, tag + "_tr", cfg="PegTrace.cfg", module="PegTrace.tla", ast=ast, workers=1, emit="ev",
                             extra_env={"VERIF_TRACE": tp, "JAVA_TOOL_OPTIONS": "-Xss512m -Dtlc2.tool.queue.IStateQueue=StateDeque"})
         ctx.add_stats(st)
         if st["ok"]:
@@ -162,7 +162,7 @@ def selftest():
         with open(tp, "w") as f:
             for r in rs:
                 f.write(json.dumps(r) + "\n")
-        _, st = peg.run_tlc(path, "selftest", cfg="PegTrace.cfg", module="PegTrace.tla", workers=1,
+        _, st = peg.run_tlc(path, "selftest", cfg="PegTrace.cfg", module="PegTrace.tla", workers=1, emit="ev",
                             extra_env={"VERIF_TRACE": tp, "JAVA_TOOL_OPTIONS": "-Xss512m -Dtlc2.tool.queue.IStateQueue=StateDeque"})
         m = re.search(r'<<"REJECTED", (\d+)>>', open(st["out"]).read())
         return st["ok"], int(m.group(1)) if m else None
